@@ -160,9 +160,11 @@ func NewFuture(ctx context.Context, fn MalFunc) *Future {
 		verifHook("future.body.mid", f)
 		if err != nil {
 			f.ErrChan <- err
+			verifHook("future.body.delivered", f)
 			return
 		}
 		f.ValChan <- res
+		verifHook("future.body.delivered", f)
 	}()
 
 	return f
